@@ -1,14 +1,24 @@
 """C03 — every accepted statement reaches each sink of its logger once, in thread order.
 Proof: Props/Properties_C03.v (conservation invariant of M-BE for every op list; sink-loop spec).
-Tie: T-corr through the deterministic backend driver, plus the property monitor on the implementation."""
+Tie: T-corr through the deterministic backend driver, plus the property monitor on the implementation.
+Below the granularity of M-BE: the thread-context registration / cache-refresh protocol at micro-step
+granularity (Backend/RegProto.v: no context is ever lost, for every interleaving, when the append precedes
+the flag store and the flag is consumed before the rebuild; refuted for flag-before-append and
+rebuild-before-consume), tied to ThreadContextManager.h / Spinlock.h / BackendWorker.h by T-src facts, and
+real threads on the real ThreadContextManager + the real BackendWorker cache refresh (harness/reg_mt.cpp) as
+the search for a failing input and a standing stress check."""
+import json, os, re, time
+from vlib import Check, sh
 from be_common import Case, Track, HDR_LOG
 import be_gen
-from be_check import run_be, replay_be
+from be_check import run_be, replay_be, TRUSTED_BE
+from props.c01 import srcfacts_values
 
 PID = 'C03'
 MANIFEST = dict(
-    text='Machine-checked (Coq) conservation invariant of the backend micro-step model for every interleaving of log calls, thread exits and backend steps, every capacity, transit-buffer size and soft/hard limit: per thread, committed = processed ++ buffered ++ queued (nothing lost, duplicated or reordered by queue reads, buffer growth, limit exits or context removal), and the sink loop writes a statement exactly once to each sink of its logger that passes its own filter (C03_conservation, C03_sink_loop, C03_sink_gets_line_iff). The model is run against the real backend (ManualBackendWorker::poll_one with yield hooks, real frontend threads, virtual clock) on generated schedules and the property itself is evaluated on the implementation\'s sink calls. Not yet proved here: the bounded-liveness clause (drain within K polls) and unbounded queues. Queue kinds: bounded blocking, bounded dropping and UnboundedBlocking frontends (the default type; initial node 256/1024 bytes so that queues grow). For unbounded frontends the thread record of M-BE carries the node structure of the queue (the sequential layer of M-UQ, updated at every queue call; it decides the backend\'s per-call read limit = capacity of the consumer\'s current node) next to a byte queue too large to fill; the theorems quantify over every initial node structure (premise fresh_thr) and every capacity, and the extracted model is compared with the real backend on growing queues as well.',
-    design='5 C03', technique='Coq invariant proof over a backend micro-step machine + deterministic-driver differential correspondence')
+    text='Machine-checked (Coq) conservation invariant of the backend micro-step model for every interleaving of log calls, thread exits and backend steps, every capacity, transit-buffer size and soft/hard limit: per thread, committed = processed ++ buffered ++ queued (nothing lost, duplicated or reordered by queue reads, buffer growth, limit exits or context removal), and the sink loop writes a statement exactly once to each sink of its logger that passes its own filter (C03_conservation, C03_sink_loop, C03_sink_gets_line_iff). The model is run against the real backend (ManualBackendWorker::poll_one with yield hooks, real frontend threads, virtual clock) on generated schedules and the property itself is evaluated on the implementation\'s sink calls. Not yet proved here: the bounded-liveness clause (drain within K polls) and unbounded queues. Queue kinds: bounded blocking, bounded dropping and UnboundedBlocking frontends (the default type; initial node 256/1024 bytes so that queues grow). For unbounded frontends the thread record of M-BE carries the node structure of the queue (the sequential layer of M-UQ, updated at every queue call; it decides the backend\'s per-call read limit = capacity of the consumer\'s current node) next to a byte queue too large to fill; the theorems quantify over every initial node structure (premise fresh_thr) and every capacity, and the extracted model is compared with the real backend on growing queues as well.' +
+         ' Below the granularity of that model (which registers a thread context in one frontend step: append to the registry + raise the new-context flag, and refreshes the backend\'s context cache in one backend step: if the flag is up, clear it and copy the registry), also machine-checked ("threads logging for the first time"): the registration / cache-refresh protocol at micro-step granularity for any number of registering threads and the one backend (registration = lock;push_back;unlock then flag:=true; refresh = load of the flag, separate store(false) - or one exchange -, then the rebuild under the lock): for every interleaving of the micro-steps, with append-before-flag and consume-before-rebuild, the cache is always a duplicate-free prefix of the duplicate-free registry, a context whose registration call is over is cached already or a rebuild is due, one more refresh call caches it for good, and when no registration is half-way the cache equals the registry; the load;store consumption that the source has is proved as sound as an exchange (the rebuild follows the store); the micro-step protocol refines the single-step FReg/refresh of the backend model call by call (explicit linearisation trace; the atomic machine is proved equal to M-BE\'s fstep(FReg)/refresh on (registered, newflag, cache)); witness schedules refute flag-before-append (a registered context no later refresh ever caches: its queue is never read) and rebuild-before-consume. Which variant the source has (register_thread_context: one push_back under _spinlock then one store(true) to the std::atomic<bool> flag; new_thread_context_flag: exchange / load;store / compare_exchange; _update_active_thread_contexts_cache: flag consumed in the if condition, rebuild in its body; for_each_thread_context under LockGuard; Spinlock exchange(acquire)/store(release)) is re-read by clang on every run and proved equal to the good flags (T-src). The memory order of the flag accesses is deliberately not constrained (reported only): with the registry under the lock, coherence of the one atomic flag is enough, for relaxed accesses too (hand argument in RegProto.v). Not proved but stress-tested on every run: K real threads registering N fresh contexts each on the real ThreadContextManager while one thread loops the real BackendWorker::_update_active_thread_contexts_cache (K 1-8, N 1-1000, pinned and unpinned; thousands of runs quick, ten times more + a ThreadSanitizer build thorough); a registered context missing from the backend\'s cache after the final refreshes is reported as a concrete failing input (K, N, pin and the observed counts). The stress run sees only the interleavings the machine produces; removal of contexts during registration is not part of the micro-step model (it is a backend-only step of M-BE).',
+    design='5 C03', technique='Coq invariant proof over a backend micro-step machine + deterministic-driver differential correspondence; Coq invariant/refinement proof of the registration protocol over all interleavings + source-fact translator (clang AST) + multi-thread stress search on the real ThreadContextManager/BackendWorker')
 
 
 def gen(rng, facts):
@@ -105,5 +115,157 @@ RULE = ('schedules of log calls (1-5 threads, 1-3 loggers sharing 1-3 recording 
         'thread exits, clock ticks and backend polls with commands injected at yield points, BoundedBlocking queues of 256/1024 bytes, transit buffer 2/4, '
         'soft 1-4, hard 2-8, grace 0/1000; each case ends with a drain phase; non-trivial = >= 3 accepted statements from >= 2 threads; distinct by case text')
 
-run = run_be(PID, 'Properties_C03', gen, monitor, nontrivial, RULE, n_quick=400, n_thorough=20000)
-replay = replay_be(PID, monitor)
+# ---------------------------------------------------------------------------------------------
+# real threads on the real ThreadContextManager + the real BackendWorker cache refresh (harness/reg_mt.cpp):
+# case "reg_mt <K> <N> <pin>", observation "<registered> <cached> <missing>"
+REG_FACTS = ('tcm_register_append_before_flag', 'tcm_flag_consume_shape', 'be_cache_rebuild_after_flag_consume',
+             'tcm_for_each_under_lock', 'spinlock_acquire_release', 'tcm_flag_store_order')
+REG_FLAGS = ['-fno-access-control']     # the harness calls the private BackendWorker::_update_active_thread_contexts_cache
+
+
+def reg_monitor(case, line):
+    """the registration clause on the implementation: after the producers are joined and the backend's refresh ran
+    again, every registered context is in the backend's cache, once"""
+    if line.startswith(('CRASH', 'HANG', 'NOOUTPUT', 'NOTRUN')):
+        return 'implementation ' + line
+    a = case.split(); k, n = int(a[1]), int(a[2]); t = line.split()
+    if len(t) != 3 or not all(x.isdigit() for x in t) or int(t[0]) != k * n:
+        return 'malformed observation %r' % line
+    if int(t[2]) != 0:
+        return ('%s of %s registered thread contexts are not in the backend\'s cache after every registration call returned and the cache '
+                'refresh ran again: the backend never reads their queues, their statements reach no sink' % (t[2], t[0]))
+    if int(t[1]) != k * n:
+        return 'the backend\'s cache holds %s entries for %s registered contexts (a context cached more than once, or a stale one)' % (t[1], t[0])
+    return None
+
+
+REG_PLAN = [(3, 1, 0, 300), (3, 1, 1, 300), (4, 1, 0, 200), (2, 1, 0, 200), (1, 1, 0, 30), (8, 1, 0, 30),
+            (4, 2, 0, 100), (3, 30, 1, 30), (2, 300, 0, 4), (4, 1000, 0, 1)]
+
+
+def reg_round():
+    """one round of runs, (K, N, pin, repetitions): the last registrations of a run are the ones that can be lost for good,
+    so many short runs with colliding producers (N = 1) are the sensitive ones; the long ones exercise rebuilds of a
+    large registry while registrations go on"""
+    out = []
+    for k, n, pin, reps in REG_PLAN:
+        out += ['reg_mt %d %d %d' % (k, n, pin)] * reps
+    return out
+
+
+def reg_runs(ck, exe, tier):
+    """rounds of reg_round() until the wall-clock budget is used up (a round takes ~0.5 s on an idle machine, several
+    seconds on a loaded one): at least 1 round, at most 10 (quick) / 100 (thorough); stops at the first round with a mismatch"""
+    budget, most = (5.0, 10) if tier == 'quick' else (60.0, 100)
+    t0 = time.time(); cases = []; il = []; rounds = 0
+    while rounds < most and (rounds < 1 or time.time() - t0 < budget):
+        rc = reg_round()
+        rl = ck.run_impl(exe, rc, timeout=300, per_case_timeout=30, max_fail=3)
+        cases += rc; il += rl; rounds += 1
+        if any(reg_monitor(c, i) for c, i in zip(rc, rl)):
+            break
+    return cases, il, rounds
+
+
+def reg_phase(ck, tier, broken):
+    t0 = time.time()
+    facts = srcfacts_values()
+    ck.tie.append({'T-src facts (registration / cache refresh protocol)': {k: facts.get(k) for k in REG_FACTS}})
+    exe, err = ck.build_harness('reg_mt', ['reg_mt.cpp'], flags=REG_FLAGS, san=False)
+    if not exe:
+        ck.violation('no-failing-input-found', 'harness reg_mt.cpp does not compile against the source tree (ThreadContextManager / BackendWorker cache refresh interface changed?): ' + err[-500:])
+        return {'reg_stress': {'built': False}}
+    cases, il, rounds = reg_runs(ck, exe, tier)
+    bad = [(c, i, reg_monitor(c, i)) for c, i in zip(cases, il)]
+    bad = [(c, i, m) for c, i, m in bad if m and i != 'NOTRUN']
+    ok = [(c, i) for c, i in zip(cases, il) if re.fullmatch(r'\d+ \d+ \d+', i)]
+    info = {'built': True, 'rounds': rounds, 'runs': len(cases), 'completed': len(ok), 'mismatches': len(bad),
+            'configurations_K_N_pin': sorted(set(tuple(int(x) for x in c.split()[1:]) for c in cases)),
+            'registrations_total': sum(int(i.split()[0]) for c, i in ok),
+            'runs_by_configuration': {' '.join(c.split()[1:]): cases.count(c) for c in sorted(set(cases))},
+            'rule': 'K producer threads register N fresh contexts each on the real ThreadContextManager (contexts created before the start signal), '
+                    'one consumer thread loops the real BackendWorker::_update_active_thread_contexts_cache until the producers are done, then two more '
+                    'refresh calls after the join; contexts removed at the end of a run; monitor: missing == 0 and cached == K*N'}
+    notgood = []
+    if facts.get('tcm_register_append_before_flag') != 'true':
+        notgood.append('SrcFacts.tcm_register_append_before_flag = %s (ThreadContextManager::register_thread_context does not append under the lock before it raises the flag: C03_reg_flag_before_append_refuted applies)' % facts.get('tcm_register_append_before_flag'))
+    if facts.get('be_cache_rebuild_after_flag_consume') != 'true':
+        notgood.append('SrcFacts.be_cache_rebuild_after_flag_consume = %s (BackendWorker::_update_active_thread_contexts_cache is not "if (new_thread_context_flag()) { clear; for_each push_back }": C03_reg_rebuild_before_consume_refuted applies when the rebuild precedes the consumption)' % facts.get('be_cache_rebuild_after_flag_consume'))
+    if facts.get('tcm_flag_consume_shape') not in ('1%N', '2%N', '3%N'):
+        notgood.append('SrcFacts.tcm_flag_consume_shape = %s (new_thread_context_flag() is none of exchange(false) / if (load) { store(false); return true; } return false / compare_exchange_strong(true -> false))' % facts.get('tcm_flag_consume_shape'))
+    for k in ('tcm_for_each_under_lock', 'spinlock_acquire_release'):
+        if facts.get(k) != 'true':
+            notgood.append('SrcFacts.%s = %s (the registry is not iterated under the spinlock / the spinlock is not acquire-release)' % (k, facts.get(k)))
+    if notgood:
+        # in place: run_be reports the list as no-failing-input-found when nothing concrete turns up
+        broken.insert(0, 'T-src: ' + '; '.join(notgood) + (' [registration stress run: %d multi-thread runs, no lost context observed]' % len(ok) if not bad else ''))
+    if bad:
+        # the smallest failing run, then still smaller ones (a run takes well under a millisecond; the outcome is a race, so repeat)
+        c0, i0, m0 = min(bad, key=lambda x: (int(x[0].split()[1]) * int(x[0].split()[2]), int(x[0].split()[1])))
+        if not i0.startswith(('CRASH', 'HANG', 'NOOUTPUT')):
+            k0, n0, pin = (int(x) for x in c0.split()[1:])
+            for k, n in ((1, 1), (2, 1), (3, 1), (2, 2), (4, 1)):
+                if k * n >= k0 * n0: break
+                trial = ['reg_mt %d %d %d' % (k, n, pin)] * 400
+                tl = ck.run_impl(exe, trial, timeout=60, per_case_timeout=10, max_fail=1)
+                hit = [(c, i) for c, i in zip(trial, tl) if reg_monitor(c, i) and not i.startswith(('CRASH', 'HANG', 'NOOUTPUT', 'NOTRUN'))]
+                if hit:
+                    c0, i0 = hit[0]; m0 = reg_monitor(c0, i0); break
+        kn = int(c0.split()[1]) * int(c0.split()[2])
+        ck.violation('impl-failing-input', 'real threads on quill::detail::ThreadContextManager + BackendWorker::_update_active_thread_contexts_cache (harness/reg_mt.cpp): ' + m0 +
+                     ((' [proof side: ' + '; '.join(broken)[:400] + ']') if broken else ''),
+                     case=c0, expected='%d %d 0  (every registered context is in the backend\'s cache)' % (kn, kn),
+                     observed=i0, extra={'harness': 'harness/reg_mt.cpp (g++ -fno-access-control)', 'failing_runs': len(bad), 'runs': len(cases),
+                                         'note': 'the outcome depends on the thread interleaving: the replay repeats the case until it fails (up to 2000 runs)',
+                                         'model_witness': 'Properties_C03.v: C03_reg_flag_before_append_refuted / C03_reg_rebuild_before_consume_refuted'})
+    if tier != 'quick':
+        # ThreadSanitizer build: catches a registry that is no longer protected by the lock / a flag that is no longer atomic
+        texe, terr = ck.build_harness('reg_mt_tsan', ['reg_mt.cpp'], flags=REG_FLAGS + ['-fsanitize=thread'], san=False)
+        if not texe:
+            info['tsan'] = 'not built: ' + terr[-200:]
+        else:
+            tcases = ['reg_mt %d %d %d' % (k, n, pin) for _ in range(40) for (k, n, pin) in ((3, 1, 0), (2, 5, 1), (4, 50, 0))]
+            rc, so, se = sh([texe], inp='\n'.join(tcases) + '\n', timeout=300, env=dict(os.environ, TSAN_OPTIONS='halt_on_error=1:exitcode=66'))
+            tl = so.splitlines()
+            tbad = [(c, i) for c, i in zip(tcases, tl) if reg_monitor(c, i)]
+            info['tsan'] = {'runs': len(tcases), 'completed': len(tl), 'rc': rc, 'mismatches': len(tbad)}
+            if rc != 0 or len(tl) != len(tcases) or tbad:
+                m = re.search(r'(WARNING: ThreadSanitizer: [^\n]+)', se or '')
+                c1 = tbad[0][0] if tbad else tcases[min(len(tl), len(tcases) - 1)]
+                what = reg_monitor(*tbad[0]) if tbad else ('rc=%s %s' % (rc, m.group(1) if m else (se or '')[-200:]))
+                if not (tbad and bad):     # the same lost registration is already reported above
+                    ck.violation('impl-failing-input', 'registration stress run under ThreadSanitizer: ' + what, case=c1,
+                                 expected='missing == 0, no data race', observed=(tbad[0][1] if tbad else what), extra={'harness': 'harness/reg_mt.cpp (-fno-access-control -fsanitize=thread)'})
+    info['wall_s'] = round(time.time() - t0, 2)
+    ck.log('registration stress: %d multi-thread runs, %d registrations, %d mismatches, %.1fs' % (info['runs'], info['registrations_total'], info['mismatches'], info['wall_s']))
+    return {'reg_stress': info}
+
+
+TRUSTED = TRUSTED_BE + [
+    'registration protocol (Backend/RegProto.v): the registry is only touched inside critical sections of one acquire/release spinlock and the flag is one atomic object, so lock order + coherence make a sequentially consistent interleaving of the micro-steps faithful for every memory_order of the flag accesses (hand-argued in the file header); removal of contexts is not part of the micro-step model',
+    'tools/srcfacts.py reg_facts: shape facts from the clang AST (register_thread_context = one push_back under _spinlock, then one store(true) to the atomic flag; new_thread_context_flag = exchange / load;store / compare_exchange; _update_active_thread_contexts_cache = flag consumed in the if condition, rebuild in its body; for_each_thread_context under LockGuard; Spinlock exchange(acquire)/store(release)); LockGuard = lock in the constructor / unlock in the destructor is not re-checked',
+    'harness/reg_mt.cpp: multi-thread stress run of the real ThreadContextManager and the real (private, -fno-access-control) BackendWorker cache refresh (a search for failing inputs, not a proof; it can only observe the interleavings the machine produces)',
+]
+
+run = run_be(PID, 'Properties_C03', gen, monitor, nontrivial, RULE, n_quick=400, n_thorough=20000, trusted=TRUSTED, extra_phase=reg_phase)
+_replay_be = replay_be(PID, monitor)
+
+
+def replay(path):
+    d = json.load(open(path)); c = d.get('case')
+    if not (isinstance(c, str) and c.startswith('reg_mt ')):
+        return _replay_be(path)
+    ck = Check(PID, 'quick')
+    exe, err = ck.build_harness('reg_mt', ['reg_mt.cpp'], flags=REG_FLAGS, san=False)
+    if not exe:
+        print('harness reg_mt.cpp does not compile:', err[-500:]); return 1
+    print('case    :', c); print('expected:', d.get('expected')); print('recorded:', d.get('observed'))
+    done = 0
+    for _ in range(20):     # the outcome is a race between threads: repeat until it shows
+        il = ck.run_impl(exe, [c] * 100, per_case_timeout=30, max_fail=1)
+        for i in il:
+            done += 1
+            m = reg_monitor(c, i)
+            if m and i != 'NOTRUN':
+                print('run %d   : %s' % (done, i)); print('monitor :', m); return 1
+    print('%d runs: every registered context was in the backend\'s cache' % done); return 0
